@@ -72,7 +72,7 @@ func (s *Store) Contracts(filter contracts.ContractFilter) (contracts []contract
 
 	contractQuery := fmt.Sprintf(`SELECT c.contract_id, rt.contract_id AS renewed_to, rf.contract_id AS renewed_from, c.contract_status, c.negotiation_height, c.formation_confirmed,
 	COALESCE(c.revision_number=c.confirmed_revision_number, false) AS revision_confirmed, c.resolution_height, c.locked_collateral, c.rpc_revenue,
-	c.storage_revenue, c.ingress_revenue, c.egress_revenue, c.account_funding, c.risked_collateral, c.raw_revision, c.host_sig, c.renter_sig
+	c.storage_revenue, c.ingress_revenue, c.egress_revenue, c.registry_read, c.registry_write, c.account_funding, c.risked_collateral, c.raw_revision, c.host_sig, c.renter_sig
 FROM contracts c
 INNER JOIN contract_renters r ON (c.renter_id=r.id)
 LEFT JOIN contracts rt ON (c.renewed_to=rt.id)
@@ -572,7 +572,7 @@ func (s *Store) ExpireV2ContractSectors(height uint64) error {
 func getContract(tx *txn, contractID int64) (contracts.Contract, error) {
 	const query = `SELECT c.contract_id, rt.contract_id AS renewed_to, rf.contract_id AS renewed_from, c.contract_status, c.negotiation_height, c.formation_confirmed,
 	COALESCE(c.revision_number=c.confirmed_revision_number, false) AS revision_confirmed, c.resolution_height, c.locked_collateral, c.rpc_revenue,
-	c.storage_revenue, c.ingress_revenue, c.egress_revenue, c.account_funding, c.risked_collateral, c.raw_revision, c.host_sig, c.renter_sig
+	c.storage_revenue, c.ingress_revenue, c.egress_revenue, c.registry_read, c.registry_write, c.account_funding, c.risked_collateral, c.raw_revision, c.host_sig, c.renter_sig
 	FROM contracts c
 	LEFT JOIN contracts rt ON (c.renewed_to = rt.id)
 	LEFT JOIN contracts rf ON (c.renewed_from = rf.id)
@@ -1444,6 +1444,8 @@ func scanContract(row scanner) (c contracts.Contract, err error) {
 		decode(&c.Usage.StorageRevenue),
 		decode(&c.Usage.IngressRevenue),
 		decode(&c.Usage.EgressRevenue),
+		decode(&c.Usage.RegistryRead),
+		decode(&c.Usage.RegistryWrite),
 		decode(&c.Usage.AccountFunding),
 		decode(&c.Usage.RiskedCollateral),
 		decode(&c.Revision),
